@@ -1,17 +1,50 @@
 /-
 C02 — generic parsing agrees with the RFC 7950 section 6 reading of the text (DESIGN.md 7.2).
-Impl model: `Goyang.Model.Lex`, `Goyang.Model.Parse`; reference reader: `Goyang.Spec.Parse`.
+
+Impl model: `Goyang.Model.Lex` + `Goyang.Model.Parse` (`parseText file bytes`, a transliteration of
+`yang.Parse` after the repairs D20, D29, D42).  Reference reader: `Goyang.Spec.Parse`
+(`parse : List Char → Option (List Stmt)`, `Admissible`).
+
+The main theorem is `parse_refines_spec`, at full strength: for **every** Unicode text (`List Char`,
+handed to the model as its UTF-8 encoding in core Lean's sense) that contains none of the four
+excluded constructs, the model returns exactly the reference reader's forest — keywords, argument
+presence, exact argument bytes, nesting, sibling order, and the position of every statement — or,
+when the reference reader rejects the text, a non-empty list of error lines and no statements.
+It is proved by simulation (`Goyang/Lemmas/`): (a) totality of lexer and parser for arbitrary
+bytes (`Lex.lean`, `Parse.lean`); (b) the double-quoted-string loop = the three RFC passes
+(`QStr.lean`); (c) the parser over the reference reader's tokens = the statement grammar
+(`ListSrc.lean`); (d) `NextToken` = the next token of the reference reader, character by character
+with `line`/`col`/`tcol` bookkeeping (`LexSim.lean`, `TokSim.lean`); (e) composition (`ParseSim.lean`,
+`Newline.lean`, `Compose.lean`).
 -/
 import Goyang.Model.Parse
 import Goyang.Spec.Parse
 import Goyang.Lemmas.Parse
+import Goyang.Lemmas.Compose
 
 namespace Goyang.Props.C02
 open Goyang.Model Goyang.Model.Parse
+open Goyang.Spec.Parse (Stmt Admissible QItem PTok)
+
+/-- UTF-8 of a Unicode text, as core Lean defines it -/
+def utf8 (t : List Char) : List UInt8 := t.flatMap String.utf8EncodeChar
+
+/-- a statement of the reference reader as a statement of the model: strings as UTF-8, `arg = none`
+as `hasArg = false`, the file name added -/
+abbrev encForest (file : List UInt8) (forest : List Stmt) : List Statement :=
+  Goyang.Lemmas.ListSrc.encStmts file forest
+
+theorem utf8_eq (t : List Char) : Goyang.Model.Utf8.encodeChars t = utf8 t := by
+  unfold utf8 Goyang.Model.Utf8.encodeChars
+  congr 1
+  funext c
+  exact Goyang.Lemmas.Utf8.encChar_eq_core c
+
+/-! ## totality (also the lexer/parser part of C01) -/
 
 /-- `yang.Parse` as modelled is total on arbitrary bytes (also ill-formed UTF-8): with the fuel the
 model supplies no loop of lexer or parser runs dry, no slice is taken out of range and the cursor
-never leaves the input.  (This is the lexer/parser part of C01 as well.) -/
+never leaves the input. -/
 theorem parse_no_fault (file text : List UInt8) (f : Lex.Fault) : parseText file text ≠ .fault f :=
   Goyang.Lemmas.Parse.parseText_no_fault file text f
 
@@ -41,5 +74,106 @@ theorem parse_ok_or_rejected (file text : List UInt8) :
   | ok forest => exact Or.inl ⟨forest, rfl⟩
   | rejected errs => exact Or.inr ⟨errs, rejected_nonempty file text errs h, rfl⟩
   | fault f => exact absurd h (parse_no_fault file text f)
+
+/-! ## the steps of the refinement that are of independent interest -/
+
+/-- **(b)** The single-pass loop of `lexQString` (as the fold `stepC` over the raw items: one case per
+`switch` arm of the Go loop, with the flag `over` and the column `tcol`) computes what RFC 7950
+6.1.3 prescribes as three separate passes — trailing blanks dropped before each line break,
+continuation lines stripped up to the column of the opening quote, backslash pairs substituted.
+In pattern mode every raw text has that value; otherwise it has it iff all backslash pairs are
+defined.  The only hypothesis is exclusion (3) of the property. -/
+theorem dq_string_refines_rfc (qcol : Nat) (raw : List QItem) (h : Goyang.Lemmas.QStr.noEscBlankEnd raw) :
+    Goyang.Spec.Parse.dequote true qcol raw = some (Goyang.Lemmas.QStr.implValue qcol raw) ∧
+    Goyang.Spec.Parse.dequote false qcol raw =
+      if raw.all Goyang.Lemmas.QStr.validEsc then some (Goyang.Lemmas.QStr.implValue qcol raw) else none :=
+  ⟨Goyang.Lemmas.QStr.dequote_true qcol raw h, Goyang.Lemmas.QStr.dequote_false qcol raw h⟩
+
+/-- **(c)** Over the reference reader's tokens (handed out as the lexer would hand them out) the
+parser model — `next` with its look-ahead and LIFO push-back, `nextStatement`, the depth counter, the
+shared sentinels — returns a forest exactly when the statement grammar of RFC 7950 6.3 derives one
+from all the tokens, and it is that forest. -/
+theorem parser_refines_grammar (text : List Char) (file : List UInt8) (toks : List PTok) (fuel : Nat)
+    (hf : toks.length + 2 ≤ fuel) (hadm : ∀ x ∈ toks, Goyang.Lemmas.ListSrc.okTok x) (forest : List Statement) :
+    parseWith Goyang.Lemmas.ListSrc.listSource fuel
+        { text := text, file := file, toks := toks, errs := [], tail := none } = .ok forest ↔
+      ∃ ss, Goyang.Spec.Parse.parseTokens text toks = some ss ∧ forest = encForest file ss := by
+  rw [Goyang.Lemmas.ListSrc.parse_list text file toks none fuel hf hadm forest]
+  simp
+
+/-! ## the property -/
+
+/-- **C02.**  For every Unicode text without the four excluded constructs: if the text is a
+well-formed sequence of YANG statements in the reading of RFC 7950 section 6 (`Spec.parse t = some
+forest`), generic parsing returns exactly that forest — keywords, argument presence, exact argument
+strings (single-quoted verbatim; double-quoted with escapes substituted, indentation and trailing
+blanks stripped; `+`-joined pieces concatenated; unquoted verbatim), nesting, sibling order and the
+`file:line:col` of every statement; otherwise it returns no statements and a non-empty error. -/
+theorem parse_refines_spec (file : List UInt8) (t : List Char) (ha : Admissible t = true) :
+    match Goyang.Spec.Parse.parse t with
+    | some forest => parseText file (utf8 t) = .ok (encForest file forest)
+    | none => ∃ msgs, msgs ≠ [] ∧ parseText file (utf8 t) = .rejected msgs := by
+  rw [← utf8_eq]
+  cases hp : Goyang.Spec.Parse.parse t with
+  | some forest =>
+    simp only
+    exact (Goyang.Lemmas.Compose.parseText_ok_iff file t ha _).2 ⟨forest, hp, rfl⟩
+  | none =>
+    simp only
+    rcases parse_ok_or_rejected file (Goyang.Model.Utf8.encodeChars t) with ⟨forest, h⟩ | h
+    · obtain ⟨ss, hss, _⟩ := (Goyang.Lemmas.Compose.parseText_ok_iff file t ha forest).1 h
+      rw [hp] at hss; cases hss
+    · exact h
+
+/-- Generic parsing accepts a text exactly when it is a well-formed sequence of statements. -/
+theorem accepts_iff_wellformed (file : List UInt8) (t : List Char) (ha : Admissible t = true) :
+    (∃ forest, parseText file (utf8 t) = .ok forest) ↔ (Goyang.Spec.Parse.parse t).isSome = true := by
+  have h := parse_refines_spec file t ha
+  cases hp : Goyang.Spec.Parse.parse t with
+  | some forest => rw [hp] at h; simp only at h; exact ⟨fun _ => rfl, fun _ => ⟨_, h⟩⟩
+  | none =>
+    rw [hp] at h
+    simp only at h
+    obtain ⟨msgs, _, hm⟩ := h
+    constructor
+    · rintro ⟨forest, hf⟩; rw [hm] at hf; cases hf
+    · intro hc; cases hc
+
+/-! ## the hypotheses are satisfiable: a text with a block, a tab-indented line, a comment before a
+three-line-free multi-line string whose continuation line mixes tabs and blanks, an escape, a
+`+`-joined single-quoted piece -/
+
+/-- `a {` LF TAB `b /**/ "x` LF TAB TAB SP SP `y \t z" + 'q';` LF `}` -/
+def exampleText : List Char :=
+  ['a', ' ', '{', '\n', '\t', 'b', ' ', '/', '*', '*', '/', ' ', '"', 'x', '\n', '\t', '\t', ' ', ' ', 'y', ' ',
+   '\\', 't', ' ', 'z', '"', ' ', '+', ' ', '\'', 'q', '\'', ';', '\n', '}']
+
+def exampleForest : List Stmt :=
+  [⟨['a'], none, 1, 1, [⟨['b'], some ['x', '\n', ' ', ' ', 'y', ' ', '\t', ' ', 'z', 'q'], 2, 2, []⟩]⟩]
+
+set_option maxRecDepth 8000 in
+example : Admissible exampleText = true := by decide
+
+set_option maxRecDepth 8000 in
+/-- the reference reader on it: the quote stands in column 16, the two tabs are stripped, the two blanks stay -/
+example : Goyang.Spec.Parse.parse exampleText = some exampleForest := by rfl
+
+set_option maxRecDepth 20000 in
+/-- the model on it, evaluated -/
+example : parseText [102] (utf8 exampleText) = .ok (encForest [102] exampleForest) := by rfl
+
+/-- a rejected text: the closing brace is missing -/
+example : Goyang.Spec.Parse.parse ['a', ' ', '{', ' ', 'b', ';'] = none := by rfl
+
+example : Admissible ['a', ' ', '{', ' ', 'b', ';'] = true := by decide
+
+/-- exclusion (3) is satisfiable and not vacuous -/
+example : Goyang.Lemmas.QStr.noEscBlankEnd [.lit 'x', .lit ' ', .lit '\n', .lit '\t', .esc 't', .lit 'y'] := by
+  intro x hx q hq
+  simp [Goyang.Spec.Parse.splitLines] at hx
+  subst hx
+  simp [Goyang.Spec.Parse.stripTrail, Goyang.Spec.Parse.isLitBlank, Goyang.Spec.Parse.isBlank] at hq
+  subst hq
+  rfl
 
 end Goyang.Props.C02
